@@ -19,27 +19,12 @@ def run_order(tier):
 
 
 def run(tier):
-    import json, os, time
-    t0 = time.time()
+    from props import c02
     gs = sugar.inline_variants(K.seed())
     if tier == "quick":
         # every base grammar: no inlining, everything inlined, and each single nonterminal inlined
         gs = [g for g in gs if g.name.split("_")[-1].count("1") in (0, 1, len(g.name.split("_")[-1]))]
-    rc1 = SP.run_lang(PID, tier, SP.lang_jobs(gs, tier, n_quick=5, n_thorough=6), ASSUME)
-    evp = os.path.join(K.VERIF, "evidence", PID + ".json")
-    ev1 = json.load(open(evp))
-    rc2 = run_order(tier)
-    ev2 = json.load(open(evp))
-    cov = ev1["coverage"]
-    cov["order_half"] = ev2["coverage"]
-    for k in ("states", "transitions", "obligations", "discharged"):
-        cov[k] = cov.get(k, 0) + ev2["coverage"].get(k, 0)
-    cov["samples"] = cov["samples"][:40] + ev2["coverage"]["samples"][:20]
-    K.write_evidence(PID, tier, "model_checking", cov, ev1["assumptions"] + ev2["assumptions"][-1:], time.time() - t0,
-                     violations=ev1.get("violations", 0) + ev2.get("violations", 0))
-    if 1 in (rc1, rc2):
-        return 1
-    return max(rc1, rc2)
+    return c02.run_both(PID, tier, lambda: SP.run_lang(PID, tier, SP.lang_jobs(gs, tier, n_quick=5, n_thorough=6), ASSUME), lambda: run_order(tier))
 
 
 def replay(path):
